@@ -6,7 +6,13 @@ RULE = ("stateless exploration of the real Queue<int>/Pool code under the vsched
         "timeout/no-timeout answer of the timed wait, with at most k deviations (preemptions or charged timeouts), k iterated "
         "0,1,2(,3). evaluations = complete schedules executed; distinct_nontrivial = schedules that deviate from the default "
         "schedule in at least one choice (distinct by choice sequence); states = distinct scheduler-state hashes seen at decision "
-        "points; transitions = scheduling decisions executed; every explored trace is an execution of the implementation.")
+        "points; transitions = scheduling decisions executed; every explored trace is an execution of the implementation. "
+        "Promela layer (engine/spin/queue.pml, one atomic step per scheduler step): Spin explores ALL interleavings (no deviation bound) "
+        "of the queue drivers and of larger ones (2-3 producers, 2 consumers, try_pop and shutdown threads, bounds 0/1/2) with the same "
+        "oracle as assertions and deadlock as invalid end state; the model is bound to the code in both directions: every schedule the "
+        "explorer executed on the real Queue at deviation bound <= 1 (thorough: <= 2) must be accepted by the model with the same "
+        "outcome (spin_impl_traces_accepted_by_model), and every complete path of the model for small configurations is executed on "
+        "the real Queue with the scheduler following the path step by step (spin_model_paths_replayed_on_impl).")
 DEADLINE = {"quick": 200, "thorough": 1500}
 
 
@@ -23,6 +29,101 @@ def run(ctx):
     # free-running ThreadSanitizer companion first (short): guards the 'sync points are sufficient' assumption
     ctx.run_harness(exes["h19tsan"], ["--iterations", "30" if ctx.tier == "quick" else "300"],
                     env={"TSAN_OPTIONS": "halt_on_error=0:exitcode=66:suppressions=" + os.path.join(os.path.dirname(os.path.dirname(ctx.checkdir)), "engine", "vsched", "tsan.supp")}, timeout=120)
+    spin_layer(ctx, exes["h19"])          # Promela layer first (bounded share of the deadline), then the deep exploration takes the rest
     ctx.run_harness(exes["h19"], [])
     ctx.assume("the scheduler is sequentially consistent; no spurious condition-variable wake-ups are generated; "
                "a size of max_size + producers - 1 is allowed (check-then-act window of push())")
+
+
+def spin_layer(ctx, h19):
+    """Promela model of Queue: unbounded safety search + two-way conformance with the implementation (see spin.py)."""
+    import collections
+    import subprocess
+    import sys
+    import time
+    sys.path.insert(0, ctx.checkdir)
+    import spin
+    thorough = ctx.tier == "thorough"
+    verif = os.path.dirname(os.path.dirname(ctx.checkdir))
+    work = os.path.join(verif, "build", "C19-spin-%d" % os.getpid())
+    os.makedirs(work, exist_ok=True)
+    try:
+        # 1. safety: all interleavings of every model configuration (configurations in parallel, one pan each)
+        from concurrent.futures import ThreadPoolExecutor
+        budget_end = time.time() + ctx.remaining() * (0.5 if thorough else 0.45)
+        left = lambda: max(0.0, budget_end - time.time())
+        states = trans = 0
+        scfgs = spin.H19 + spin.SMALL[:4] + spin.BIG
+        with ThreadPoolExecutor(max_workers=8) as ex:
+            res = list(ex.map(lambda ic: spin.safety(os.path.join(work, "safety%d" % ic[0]), ic[1], max(20, min(300, left()))), enumerate(scfgs)))
+        for cfg, st in zip(scfgs, res):
+            states += st["states"]; trans += st["transitions"]
+            ctx.bound("spin safety (all interleavings, no deviation bound): " + cfg.name, st["complete"])
+            if st["errors"] > 0:
+                ctx.violation("spin-model/safety-violated/" + cfg.name.split(":")[0],
+                              "the Promela model of Queue violates its oracle or deadlocks in configuration %s (model-level counterexample, "
+                              "not yet reproduced on the implementation): %s" % (cfg.name, st.get("trail", "")[-1500:]), harness=None, spec="")
+        ctx.add("spin_model_states", states)
+        ctx.add("spin_model_transitions", trans)
+        # 2. implementation -> model: every executed schedule (bound <= K) must be a model behaviour with the same outcome
+        k = 2 if thorough else 1
+        dump = os.path.join(work, "traces.txt")
+        subprocess.run([h19, "--tier", "quick", "--deadline", str(int(max(10, left()))), "--part", "queue", "--max-bound", str(k),
+                        "--dump-traces", dump], stdout=subprocess.DEVNULL, stderr=subprocess.DEVNULL, timeout=ctx.remaining() + 60)
+        by = collections.defaultdict(set)
+        for line in open(dump):
+            f = line.rstrip("\n").split("\t")
+            if len(f) == 3:
+                by[f[0]].add((f[1], f[2]))
+        cfgs = {c.name: c for c in spin.H19 + spin.SMALL}
+        acc_total = tr_total = 0
+        names = [n for n in sorted(by) if n in cfgs]
+        with ThreadPoolExecutor(max_workers=8) as ex:
+            res = list(ex.map(lambda iname: spin.impl_accepts(os.path.join(work, "i2m%d" % iname[0]), cfgs[iname[1]], sorted(by[iname[1]]), max(20, min(600, left()))), enumerate(names)))
+        for name, (acc, mis, st) in zip(names, res):
+            tr = by[name]
+            acc_total += acc; tr_total += len(tr)
+            ctx.bound("impl->model: all %d schedules of '%s' with <= %d deviations accepted by the model" % (len(tr), name, k), st["complete"])
+            if st["complete"] and acc != len(tr):
+                ctx.violation("spin-model/implementation-trace-not-accepted/" + name.split(":")[0],
+                              "%d of %d implementation schedules of %s are not behaviours of the Promela model (or end in a different outcome): "
+                              "the model does not describe the code (model divergence)\n%s" % (len(tr) - acc, len(tr), name, st["log"][-1200:]), harness=None, spec="")
+        ctx.add("spin_impl_traces_accepted_by_model", acc_total)
+        ctx.add("spin_impl_traces_checked", tr_total)
+        # 3. model -> implementation: every complete model path of the small configurations runs on the real code
+        small = spin.SMALL if thorough else spin.SMALL[:2]
+        ok_total = path_total = 0
+        for cfg in small:
+            if left() < 15:
+                ctx.bound("model->impl replay: " + cfg.name, False)
+                continue
+            st, paths = spin.model_paths(os.path.join(work, "m2i"), cfg, 1, max(20, min(600, left())))
+            n = 16
+            procs = []
+            for i in range(n):
+                fn = os.path.join(work, "m2i", "s%d.txt" % i)
+                with open(fn, "w") as fh:
+                    fh.write("".join("%s\t%s\n" % (cfg.name, p) for p in paths[i::n]))
+                procs.append(subprocess.Popen([h19, "--tier", "quick", "--part", "queue", "--script", fn], stdout=subprocess.PIPE, stderr=subprocess.DEVNULL, text=True))
+            ok = bad = 0
+            fails = []
+            for p in procs:
+                out = p.communicate()[0]
+                for line in out.splitlines():
+                    f = line.split("\t")
+                    if f[0] == "SCRIPTS" and f[1] == cfg.name:
+                        ok += int(f[2]); bad += int(f[3])
+                    elif f[0] == "VIOL" or (f[0] == "SCRIPT" and len(f) > 3 and not f[3].startswith("OK")):
+                        fails.append(line[:500])
+            ok_total += ok; path_total += len(paths)
+            ctx.bound("model->impl: all %d complete model paths of '%s' (<= 1 timeout step) replayed on the real Queue" % (len(paths), cfg.name), st["complete"] and ok + bad == len(paths))
+            if bad or ok != len(paths):
+                ctx.violation("spin-model/model-path-not-reproduced-by-implementation/" + cfg.name.split(":")[0],
+                              "%d of %d model paths of %s could not be followed by the real Queue or ended in a different outcome\n%s" % (len(paths) - ok, len(paths), cfg.name, "\n".join(fails[:5])), harness=None, spec="")
+        ctx.add("spin_model_paths_replayed_on_impl", ok_total)
+        ctx.add("spin_model_paths_total", path_total)
+        if ctx.tier == "quick" or ok_total:
+            ctx.sample("spin: %d model states over %d configurations (all interleavings); %d/%d implementation schedules accepted by the model; %d/%d model paths replayed on the real Queue" % (states, len(spin.H19) + 4 + len(spin.BIG), acc_total, tr_total, ok_total, path_total))
+    finally:
+        import shutil
+        shutil.rmtree(work, ignore_errors=True)
